@@ -223,8 +223,15 @@ def tlc_batch(module, cfg, wd, batch, name, workers=1, timeout=1800, env=None):
     <<"REJECT", tid, l, clause, ...>>, POSTCONDITION = all accepted. Returns (accepted_ids, rejects, TlcResult).
     """
     path = os.path.join(wd, name + '.json')
+    def strip(x):
+        # keys starting with '_' are for the harness (descriptions, raw outcomes); TLC never sees them
+        if isinstance(x, dict):
+            return {k: strip(v) for k, v in x.items() if not k.startswith('_')}
+        if isinstance(x, list):
+            return [strip(v) for v in x]
+        return x
     with open(path, 'w') as f:
-        json.dump(batch, f, separators=(',', ':'))
+        json.dump(strip(batch), f, separators=(',', ':'))
     e = {'TRACE_FILE': path}
     if env:
         e.update(env)
